@@ -89,6 +89,13 @@ func (p *provider) Instance(ctx context.Context, ips ...gostatsd.Source) (map[go
 }
 
 func runSchedule(t *testing.T, tw *trace.Writer, c *scase, idx int, res *vh.Result) {
+	defer func() {
+		// goroutines that stay blocked for ever make the bubble panic on exit; the trace written so far is still judged
+		if x := recover(); x != nil {
+			res.Note("bubble left with blocked goroutines: %v", x)
+			res.Hit("goroutines-left-blocked")
+		}
+	}()
 	synctest.Test(t, func(t *testing.T) {
 		start := time.Now()
 		now := func() int { return int(time.Since(start) / time.Second) }
